@@ -11,6 +11,8 @@
 #include <stdlib.h>
 #include <string.h>
 #include <stdint.h>
+#include <signal.h>
+#include <unistd.h>
 #include "a/vec.h"
 #include "a/buf.h"
 #include "fault.h"
@@ -156,6 +158,12 @@ static void on_death(void)
                 e->kind == 1 ? "vec" : "buf", opname[e->op], huge ? "huge-index" : (e->cas == 2 ? "full" : "any"), e->a1, e->a2, e->siz, e->mem, e->n);
         fflush(stdout);
     }
+}
+static void on_abort(int sig)
+{
+    (void)sig;
+    on_death(); /* UBSan (abort_on_error=1) raises SIGABRT without running the death callback */
+    _exit(97);
 }
 
 static int same_bag(int const *a, int const *b, int n)
@@ -351,6 +359,7 @@ int main(int argc, char **argv)
         return 2;
     }
     __sanitizer_set_death_callback(on_death);
+    signal(SIGABRT, on_abort);
     f_install();
     if (argc > 6)
     {
